@@ -479,7 +479,7 @@ class TrajectorySH:
         last_acceleration = self._force(last_electronics) / self.mass
         this_acceleration = self._force(this_electronics) / self.mass
 
-        self.last_velocity = self.velocity
+        self.last_velocity = np.copy(self.velocity)
         self.velocity += 0.5 * (last_acceleration + this_acceleration) * self.dt
 
     def surface_hopping(self, last_electronics: ElectronicT, this_electronics: ElectronicT):
